@@ -57,6 +57,8 @@ def features(case):
         rep = d.get("repr")
         if rep:
             f += [x for x in (f"data_{rep['dtype']}", f"layout_{rep['layout']}", "integer_axis" if rep.get("axis_int") and all(float(g).is_integer() for g in d["global_axis"]) else None) if x and x not in f]
+    if case.get("model_axis_order"):
+        f.append("model_axis_" + case["model_axis_order"])
     if case.get("global_axis_order"):
         f.append("global_axis_" + case["global_axis_order"])
     if any(d.get("global_megacomplex") for d in case["datasets"]):
